@@ -505,7 +505,7 @@ from the trailer, dangling (out of range), unreachable holders; bookmarks via Do
 start in {0, 1, inside the id range, above it, large}. Non-trivial = the call returned (no panic) on a document; distinct by request text.".into();
     witnesses(c);
     // ---- graphs without bookmarks, all start values: full isomorphism oracle
-    for i in 0..c.n(500, 8000) {
+    for i in 0..c.n(4000, 80000) {
         let Some(mut r) = c.case("graph", i) else { continue };
         let o = Opts { pages_in_id_order: r.chance(1, 5), bookmarks: false, dangling: if r.chance(1, 2) { Dangling::Safe } else { Dangling::None }, malformed: false, max_other: 10 };
         let g = gen_doc(&mut r, &o);
@@ -514,7 +514,7 @@ start in {0, 1, inside the id range, above it, large}. Non-trivial = the call re
         run_case(c, "graph", &g, start, Mode::Full);
     }
     // ---- bookmarks where old and new numberings cannot chain (pages in id order; start 1 / above / large)
-    for i in 0..c.n(200, 3000) {
+    for i in 0..c.n(1500, 30000) {
         let Some(mut r) = c.case("bookmarks", i) else { continue };
         let o = Opts { pages_in_id_order: true, bookmarks: true, dangling: Dangling::Safe, malformed: false, max_other: 8 };
         let g = gen_doc(&mut r, &o);
@@ -523,14 +523,14 @@ start in {0, 1, inside the id range, above it, large}. Non-trivial = the call re
         run_case(c, "bookmarks", &g, start, Mode::Full);
     }
     // ---- known-finding territory: bookmarks with overlapping numberings, dangling references in range
-    for i in 0..c.n(80, 800) {
-        let Some(mut r) = c.case("bookmarks_overlap", i) else { continue };
+    for i in 0..c.n(300, 5000) {
+        let Some(mut r) = c.case("bookmarks_overlap", i) else { continue }; // known territory
         let o = Opts { pages_in_id_order: false, bookmarks: true, dangling: Dangling::None, malformed: false, max_other: 6 };
         let g = gen_doc(&mut r, &o);
         let start = pick_start(&mut r, &g.doc, &[0, 1, 1, 2]);
         run_case(c, "bookmarks_overlap", &g, start, Mode::Full);
     }
-    for i in 0..c.n(80, 800) {
+    for i in 0..c.n(300, 5000) {
         let Some(mut r) = c.case("dangling_in_range", i) else { continue };
         let o = Opts { pages_in_id_order: r.chance(1, 2), bookmarks: false, dangling: Dangling::InRange, malformed: false, max_other: 8 };
         let g = gen_doc(&mut r, &o);
@@ -538,7 +538,7 @@ start in {0, 1, inside the id range, above it, large}. Non-trivial = the call re
         run_case(c, "dangling_in_range", &g, start, Mode::Full);
     }
     // ---- outside the guarded domain (same number twice, page listed twice, missing bookmark ids): model = code, dense numbering
-    for i in 0..c.n(150, 2500) {
+    for i in 0..c.n(1000, 20000) {
         let Some(mut r) = c.case("malformed", i) else { continue };
         let o = Opts { pages_in_id_order: false, bookmarks: r.chance(1, 2), dangling: Dangling::InRange, malformed: true, max_other: 6 };
         let g = gen_doc(&mut r, &o);
